@@ -2,7 +2,7 @@ SPECIFICATION GSpec
 CONSTANTS
   BUF = 4
   HEADLOOP = TRUE
-  CARRY = FALSE
+  CARRY = TRUE
   MaxReqs = 2
   MaxBody = 5
   MaxCuts = 0
